@@ -332,3 +332,23 @@ func ReproMapBehindInterface(which string) (bool, string) {
 	}
 	return false, "lists of equal maps behind the MapLike interface are Equal"
 }
+
+// ReproFixedArray: values of a fixed-size Go array type.
+func ReproFixedArray() (bool, string) {
+	var d string
+	func() {
+		defer func() {
+			if e := recover(); e != nil {
+				d = "comparing or ranking two [3]int values panics: " + trunc(fmt.Sprint(e))
+			}
+		}()
+		c := age.Collator[[3]int]().Make()
+		switch {
+		case c.RankValues([3]int{1, 2, 3}, [3]int{1, 2, 4}) != age.LesserRank:
+			d = "[1 2 3] does not rank before [1 2 4]"
+		case !c.CompareValues([3]int{1, 2, 3}, [3]int{1, 2, 3}):
+			d = "[1 2 3] does not compare equal to itself"
+		}
+	}()
+	return d != "", d + map[bool]string{true: "", false: "fixed-size arrays are compared and ranked element by element"}[d != ""]
+}
